@@ -155,6 +155,15 @@ class C20(Check):
                 ctx.violation("smart-sort-not-ordered", case, f"smart={smart!r}")
             if any(smart[i][0] > smart[i + 1][0] for i in range(len(smart) - 1)):
                 ctx.violation("rank-not-first", case, f"smart={smart!r}")
+            # history: asking for the by-name list afterwards must leave the assembly's own (rank first) order alone
+            try:
+                before = [id(s) for s in asm.scaffolds]
+                asm.scaffolds_sorted_by_name()
+                if [id(s) for s in asm.scaffolds] != before:
+                    ctx.violation("by-name-list-reorders-the-assembly", case, f"after smart sort {smart!r}, scaffolds_sorted_by_name() left {[(s.rank, s.name) for s in asm.scaffolds]!r}")
+            except Exception as e:  # noqa: BLE001
+                ctx.violation(f"sort-raises:{type(e).__name__}", case, f"by-name list after smart sort: {e!r}")
+                return
             obs = (kn, ks)
             if ref is None:
                 ref = obs
@@ -276,6 +285,10 @@ class C20(Check):
                     self.expect_before(f"{pre}{n}{suf}", f"{pre}{m}{suf}", "numeric", ctx)
                 self.expect_equal_key(f"{pre}{n}{suf}", f"{pre}0{n}{suf}", ctx)
                 self.expect_equal_key(f"{pre}{n}{suf}", f"{pre}00{n}{suf}", ctx)
+            # digit runs of every length up to 20: 9...9 before 10...0
+            for d in range(1, 21):
+                self.expect_before(f"{pre}{'9' * d}{suf}", f"{pre}1{'0' * d}{suf}", "numeric", ctx)
+                self.expect_before(f"{pre}2{'0' * d}{suf}", f"{pre}10{'0' * d}{suf}", "numeric", ctx)
             # numbers with leading zeros still by value
             for n, m in ((2, 10), (9, 10), (1, 2), (99, 100)):
                 self.expect_before(f"{pre}0{n}{suf}", f"{pre}{m}{suf}", "numeric", ctx)
@@ -334,4 +347,4 @@ class C20(Check):
 
 CHECK = C20()
 # scope added in later rounds, kept in the evidence text
-CHECK.rule += ' Scaffolds created without a rank argument (class default).'
+CHECK.rule += ' Scaffolds created without a rank argument (class default). Digit runs of 1..21 digits (9..9 before 10..0). After the smart sort, asking for the by-name list must not reorder the assembly.'
